@@ -24,7 +24,7 @@ ASSUMPTIONS = [
     "no random sentences beyond the bound are drawn (that would be sampling)",
 ]
 BOUNDS = {"quick": {"dt_steps": 3, "pairs": "same-block"}, "thorough": {"dt_steps": 4, "pairs": "same-block+triples"}}
-LITERALS = ('""', '"a"', '"\\""', '"\\\\"', '"\\x41"', '"A"', '"a\nb"', '"# ; { }"', '"a b"', '"a  b"', '"a\tb"', '" a"', '"{\n\n}"', '"\n\n"', '";\n\n{\n"', '"}\n\n\n{ ;"')
+LITERALS = ('""', '"a"', '"\\""', '"\\\\"', '"\\x41"', '"A"', '"a\nb"', '"# ; { }"', '"a b"', '"a  b"', '"a\tb"', '" a"', '"{\n\n}"', '"\n\n"', '";\n\n{\n"', '"}\n\n\n{ ;"', '"don\\\'t"', '"\\\\\'"', '"\'"')
 DT_POSITIONS = [
     ("http_stager", "client", "http_options", "output"), ("http_stager", "server", "http_options", "output"),
     ("http_get", "client", "http_client", "metadata"), ("http_get", "client", "http_client", "id"), ("http_get", "client", "http_client", "output"), ("http_get", "server", "http_options", "output"),
